@@ -44,6 +44,8 @@ def run(cmd, **kw):
     kw.setdefault('stdout', subprocess.PIPE)
     kw.setdefault('stderr', subprocess.STDOUT)
     kw.setdefault('text', True)
+    if kw.get('text'):
+        kw.setdefault('errors', 'replace')     # an aborting tool may print raw bytes: never crash the harness on them
     return subprocess.run(cmd, **kw)
 
 
@@ -417,7 +419,7 @@ def run_lines(exe, lines, shards=None, env=None, timeout=1800):
     chunks = [lines[i::shards] for i in range(shards)]
     procs = []
     for ch in chunks:
-        p = subprocess.Popen([exe], stdin=subprocess.PIPE, stdout=subprocess.PIPE, stderr=subprocess.PIPE, text=True, env=env)
+        p = subprocess.Popen([exe], stdin=subprocess.PIPE, stdout=subprocess.PIPE, stderr=subprocess.PIPE, text=True, errors='replace', env=env)
         procs.append(p)
     import threading
     outs = [None] * shards
